@@ -13,13 +13,14 @@ import (
 	"mellium.im/xmpp/disco"
 	"mellium.im/xmpp/disco/items"
 	"mellium.im/xmpp/jid"
+	"mellium.im/xmpp/pubsub"
 	"mellium.im/xmpp/roster"
 	"mellium.im/xmpp/stanza"
 
 	"verifharness/common"
 )
 
-// The session-bound response iterators (roster.Iter, blocklist.Iter, disco.ItemIter): the
+// The session-bound response iterators (roster.Iter, blocklist.Iter, disco.ItemIter, pubsub.Iter): the
 // request is made on a real session over an in-memory connection with Serve running, the reply
 // is fed once the request is on the wire, and the iterator is read to the end.  Oracle (clauses
 // no-panic, unmarshal-total, roundtrip): every item handed out is the item its element decodes
@@ -28,7 +29,7 @@ import (
 //
 // Replay line: `udoc siter <kind> <hex of the reply payload>`.
 
-var sessIterKinds = []string{"roster", "blocklist", "disco"}
+var sessIterKinds = []string{"roster", "blocklist", "disco", "pubsub"}
 
 type sessItem struct {
 	canon string
@@ -42,6 +43,16 @@ func expectedItems(kind string, payload []byte) (want []sessItem, ok bool) {
 		return nil, false
 	}
 	inner := toks[1 : len(toks)-1]
+	if kind == "pubsub" {
+		// the items are the children of the <items/> wrapper inside <pubsub/>
+		if len(inner) < 2 {
+			return nil, false
+		}
+		if _, isStart := inner[0].(xml.StartElement); !isStart {
+			return nil, false
+		}
+		inner = inner[1 : len(inner)-1]
+	}
 	for i := 0; i < len(inner); {
 		st, isStart := inner[i].(xml.StartElement)
 		if !isStart {
@@ -53,7 +64,11 @@ func expectedItems(kind string, payload []byte) (want []sessItem, ok bool) {
 			return nil, false
 		}
 		el := printToks(inner[i:end])
-		_ = st
+		if (kind == "disco" || kind == "pubsub") && st.Name.Space == rsmNS && st.Name.Local == "set" {
+			// these two iterate through paging.Iter, which takes the page description out
+			i = end
+			continue
+		}
 		switch kind {
 		case "roster":
 			var it roster.Item
@@ -63,6 +78,16 @@ func expectedItems(kind string, payload []byte) (want []sessItem, ok bool) {
 			var it items.Item
 			pan, err := safeUnmarshal(el, &it)
 			want = append(want, sessItem{(&kv{}).j("jid", it.JID).s("name", it.Name).s("node", it.Node).String(), pan == "" && err == nil})
+		case "pubsub":
+			// id attribute and the content of the element, unchanged
+			id := ""
+			for _, a := range st.Attr {
+				if a.Name.Local == "id" {
+					id = a.Value
+					break
+				}
+			}
+			want = append(want, sessItem{id + " " + common.EncToks(canonToks(inner[i+1:end-1])), true})
 		case "blocklist":
 			// the blocked JID is the jid attribute of the element
 			v, has := "", false
@@ -131,6 +156,24 @@ func sessIterDoc(c *ctx, kind string, payload []byte, class string) {
 			}
 			iterErr = it.Err()
 			_ = it.Close()
+		case "pubsub":
+			it := pubsub.FetchIQ(ctx, iq, rs.S, pubsub.Query{Node: "n"})
+			for n := 0; it.Next() && n < 1000; n++ {
+				id, tr := it.Item()
+				var toks []xml.Token
+				for k := 0; tr != nil && k < 100000; k++ {
+					t, err := tr.Token()
+					if t != nil {
+						toks = append(toks, xml.CopyToken(t))
+					}
+					if err != nil || t == nil {
+						break
+					}
+				}
+				got = append(got, id+" "+common.EncToks(canonToks(toks)))
+			}
+			iterErr = it.Err()
+			_ = it.Close()
 		case "disco":
 			iq.To = jid.MustParse("example.net")
 			it := disco.FetchItemsIQ(ctx, "", iq, rs.S)
@@ -193,6 +236,7 @@ func sessIterCases(c *ctx) {
 		"roster":    `<query xmlns="jabber:iq:roster" ver="v1">%s</query>`,
 		"blocklist": `<blocklist xmlns="urn:xmpp:blocking">%s</blocklist>`,
 		"disco":     `<query xmlns="http://jabber.org/protocol/disco#items">%s</query>`,
+		"pubsub":    `<pubsub xmlns="http://jabber.org/protocol/pubsub"><items node="n">%s</items></pubsub>`,
 	}
 	junk := []string{`text`, `<other xmlns="urn:x"><item jid="x@y"/></other>`, `<item jid="not a@jid@@"/>`, `<item/>`,
 		`<item jid="b@example.org" name="n&lt;" node="nd" subscription="both"><group>g</group><group/></item>`,
@@ -221,6 +265,15 @@ func sessIterCases(c *ctx) {
 				}
 				x, _ := xml.Marshal(it)
 				ch = string(x)
+			case kind == "pubsub":
+				t := g.text()
+				if !xmlValid(t) {
+					continue
+				}
+				var eb bytes.Buffer
+				_ = xml.EscapeText(&eb, []byte(t))
+				ch = []string{`<item id="i1"><entry xmlns="urn:x">` + eb.String() + `</entry></item>`, `<item/>`,
+					`<item id="i&amp;2"><a xmlns="urn:a"/><b xmlns="urn:b" k="v">` + eb.String() + `</b>tail</item>`}[g.intn(3)]
 			default:
 				ch = `<item jid="` + g.njid().String() + `"/>`
 			}
